@@ -52,7 +52,7 @@ META["C07"] = {
     "level": "model_checking",
     "tiers": {
         "quick": {"shards": 15, "deadline_s": 200,
-                  "bounds": "1-d grids with B in {2,3,4,5,8}; initial states: uniform, all strictly increasing eighth-lattice grids (B<=4), one grid with a 1e-6 bin; alpha in {0,0.5,1,1.5,3}; depth 1 with the full data alphabet {0,1,3,1e-30,1e30,denorm_min,max/(4B),max/2}^B (B<=4; patterns for B=5,8); depth 2 (B<=4) over {0,1,1e6}^B; vegas_icdf on every state for 0, 2^-64, k/B and neighbours, largest below 1 and exactly 1; 2-d vs 1-d differential; 10-iteration real runs on peaks of width 1e-1..1e-4; 6-iteration mpi_vegas runs under the MPI shim with 2 and 3 ranks"},
+                  "bounds": "1-d grids with B in {2,3,4,5,8}; initial states: uniform, all strictly increasing eighth-lattice grids (B<=4), one grid with a 1e-6 bin; alpha in {0,0.5,1,1.5,3}; depth 1 with the full data alphabet {0,1,3,1e-30,1e30,denorm_min,max/(4B),max/2}^B (B<=4; patterns for B=5,8); depth 2 (B<=4) over {0,1,1e6}^B; vegas_icdf on every state for 0, 2^-64, k/B and neighbours, largest below 1 and exactly 1; 2-d vs 1-d differential; 10-iteration real runs on peaks of width 1e-1..1e-4; 6-iteration mpi_vegas runs under the MPI shim with 2 and 3 ranks; the uniform default grid and one refinement of it for every bin count 2..512"},
         "thorough": {"shards": 15, "deadline_s": 1500,
                      "bounds": "as quick with depth 3 for B<=5, depth 2 for B=8 (frontier capped at 300000 states per level, reported) and 20-iteration real runs"},
     },
